@@ -2,6 +2,7 @@ package export
 
 import (
 	"fmt"
+	"strings"
 
 	"github.com/pentops/j5/gen/j5/client/v1/client_j5pb"
 	"github.com/pentops/j5/gen/j5/schema/v1/schema_j5pb"
@@ -39,7 +40,73 @@ func BuildSwagger(b *client_j5pb.API) (*Document, error) {
 	}
 	doc.Components.Schemas = schemas
 
+	// convertSchema writes references in the form of the JDef document
+	// ("#/definitions/<name>"); the schemas of an OpenAPI document are under
+	// components.schemas.
+	for _, schema := range schemas {
+		openAPIRefs(schema)
+	}
+	for _, path := range doc.Paths {
+		for _, operation := range *path {
+			for _, param := range operation.Parameters {
+				openAPIRefs(param.Schema)
+			}
+			if operation.RequestBody != nil && operation.RequestBody.Content.JSON != nil {
+				openAPIRefs(operation.RequestBody.Content.JSON.Schema)
+			}
+			if operation.Responses != nil {
+				for _, response := range *operation.Responses {
+					if response.Content.JSON != nil {
+						openAPIRefs(response.Content.JSON.Schema)
+					}
+				}
+			}
+		}
+	}
+
 	return doc, nil
+}
+
+const (
+	jdefRefPrefix    = "#/definitions/"
+	openAPIRefPrefix = "#/components/schemas/"
+)
+
+// openAPIRefs rewrites the references of a schema tree to the location of the
+// schemas in an OpenAPI document.
+func openAPIRefs(schema *Schema) {
+	if schema == nil {
+		return
+	}
+	if schema.Ref != nil && strings.HasPrefix(*schema.Ref, jdefRefPrefix) {
+		ref := openAPIRefPrefix + strings.TrimPrefix(*schema.Ref, jdefRefPrefix)
+		schema.Ref = &ref
+	}
+	for _, sub := range schema.OneOf {
+		openAPIRefs(sub)
+	}
+	for _, sub := range schema.AnyOf {
+		openAPIRefs(sub)
+	}
+	if schema.SchemaItem == nil {
+		return
+	}
+	switch item := schema.Type.(type) {
+	case *ArrayItem:
+		openAPIRefs(item.Items)
+	case ArrayItem:
+		openAPIRefs(item.Items)
+	case *MapSchemaItem:
+		openAPIRefs(item.ValueProperty)
+		openAPIRefs(item.KeyProperty)
+	case MapSchemaItem:
+		openAPIRefs(item.ValueProperty)
+		openAPIRefs(item.KeyProperty)
+	case *ObjectItem:
+		for _, property := range item.Properties {
+			openAPIRefs(property.Schema)
+		}
+	}
 }
 
 func ConvertRootSchema(schema *schema_j5pb.RootSchema) (*Schema, error) {
